@@ -106,6 +106,19 @@ CLAIMS = {
         "Fall times trusted (C14). Populations compared at the final time only; single atom.",
         "DESIGN.md §3 C15",
     ),
+    "C06": (
+        "exploration",
+        "explicit-state BFS over building histories; every reached state is sampled and compared nanosecond by nanosecond "
+        "with an independent renderer (RefRender) of the timeline snapshot",
+        "All states reachable within depth 3-4 over 8-15 op rendering alphabets (pulses of distinct shape / phase / detuning on "
+        "every channel, retargets, multi-target local channel, EOM blocks left open, DMM with a weight map, XY with an SLM mask "
+        "and two microwave channels, two globals on one basis, two locals) on 6 worlds: per channel array lengths, amplitude, "
+        "detuning and phase over each pulse; per atom and basis the complex drive and weighted detuning from both "
+        "to_nested_dict layouts; extension by 1 and 37 ns pads with zeros / last phase / off-detuning.",
+        "Known findings: channels merged into one nested-dict entry are combined by adding amplitudes and phases (two globals "
+        "on a basis; global+local with all_local=True). Phase between pulses is not compared.",
+        "DESIGN.md §3 C06",
+    ),
 }
 
 PENDING_REASON = "check not built yet in this round (design in DESIGN.md §3); nothing is claimed for it"
